@@ -104,6 +104,9 @@ def run_tv(prop, tier, seed, cases, rule, functions, bounds, assumptions, quick_
             ctx.candidate(f"{rec['group']}:raises:{rec['case']}", f"{key}: {rec['why']}", {'case': rec['case'], 'sizes': rec['sizes'], 'raises': True})
             continue
         if v == 'transform-raises':
+            if 'to edit' in rec['why'] or 'to re-type' in rec['why']:
+                ctx.extra['variant_not_applicable_to_template'] = ctx.extra.get('variant_not_applicable_to_template', 0) + 1
+                continue          # the edit variant does not exist for this template (e.g. fewer than k assignments)
             ctx.not_encoded.append(f'{key}: transformation raised {rec["why"]}')
             continue
         if v == 'notenc':
